@@ -37,14 +37,14 @@ theorem C20_query_prefix (progs : List (List Op)) (sched : List Tid) (t : Tid) (
   exact ⟨_, List.take_prefix _ _, h2.1, h2.2⟩
 
 /-- Read-your-writes, for facts and rules: if a thread's write `w` (insert, delete, rule registration or
-    rule drop) returned before its later query `q`, the query's answer is computed from a prefix of the
+    rule drop; other than a delete that removed nothing) returned before its later query `q`, the query's answer is computed from a prefix of the
     application order that contains `w` — e.g. a client that registered a view and then queries it is
     answered through a rule list containing that view. -/
 theorem C20_read_your_writes (progs : List (List Op)) (sched : List Tid) (st : State)
     (hst : st ∈ trace (init progs false) sched) (t : Tid) (ht : t < st.n)
     (d1 d2 d3 : List (Op × Out × Nat)) (w q : Op) (out res : Out) (kw kq : Nat)
     (hd : (st.threads t).done = d1 ++ (w, out, kw) :: (d2 ++ (q, res, kq) :: d3))
-    (hw : isWrite w = true) :
+    (hw : isWrite w = true) (hout : out ≠ .del 0) :
     (t, w) ∈ st.applied.take kq ∧
     (∀ r, q = .query r → res = .rows (replay (st.applied.take kq) r)) ∧
     (∀ v, q = .queryV v → res = .rows (evalView (replay (st.applied.take kq)) (replayR (st.applied.take kq)) v)) := by
@@ -54,7 +54,7 @@ theorem C20_read_your_writes (progs : List (List Op)) (sched : List Tid) (st : S
   obtain ⟨_, _, h3⟩ := hinv.res t ht _ hmw
   obtain ⟨_, h5, _⟩ := hinv.res t ht _ hmq
   dsimp only at h3 h5
-  obtain ⟨h1, hget⟩ := h3 hw
+  obtain ⟨h1, hget⟩ := h3 hw hout
   have hle : kw ≤ kq := by
     have hp := hinv.mono t ht
     rw [hd] at hp
@@ -65,13 +65,13 @@ theorem C20_read_your_writes (progs : List (List Op)) (sched : List Tid) (st : S
     rw [List.getElem?_take, if_pos (by omega)]; exact hget
   exact List.mem_of_getElem? this
 
-/-- the hypotheses are met by a non-trivial interleaving: thread 1's delete is applied between the
+/-- the hypotheses are met by a non-trivial interleaving: thread 1's insert is applied between the
     time assignment and the application of thread 0's insert; thread 0 then reads its own write. -/
-def exProgs : List (List Op) := [[.insert 0 [1, 2], .query 0], [.delete 0 [1]]]
+def exProgs : List (List Op) := [[.insert 0 [1, 2], .query 0], [.insert 0 [1]]]
 def exSched : List Tid := [0, 1, 1, 0, 1, 0, 0]
-example : (lastState (init exProgs false) exSched).applied = [(1, .delete 0 [1]), (0, .insert 0 [1, 2])] := by decide
+example : (lastState (init exProgs false) exSched).applied = [(1, .insert 0 [1]), (0, .insert 0 [1, 2])] := by decide
 example : ((lastState (init exProgs false) exSched).threads 0).done =
-    [(.insert 0 [1, 2], .ins 2 0, 2), (.query 0, .rows [1, 2], 2)] := by decide
+    [(.insert 0 [1, 2], .ins 1 1, 2), (.query 0, .rows [1, 2], 2)] := by decide
 example : lastState (init exProgs false) exSched ∈ trace (init exProgs false) exSched := lastState_mem _ _
 
 /-- a rule registration racing an insert: thread 0's insert has taken its time and persisted, thread 1
